@@ -1361,7 +1361,10 @@ pub fn end_of_run(sim: &mut Sim) {
             if seen > 1 {
                 v.push(("C05", "observed_twice", format!("client {c} observed {:?} seq {} {seen} times", e.kind, e.seq)));
             }
-            if intended && reliable && seen == 0 && sess.up() && running {
+            // A client built with another independence mark cannot decode the server's independent event
+            // (no guarantee is stated for a client whose protocol differs).
+            let foreign = sim.prof.wrong_proto & (1 << c) != 0 && sim.prof.app.auth == 0 && sim.prof.wrong_variant == 2;
+            if intended && reliable && seen == 0 && sess.up() && running && !foreign {
                 let dropped = sess.sev_sent.get(&e.seq).map(|l| l.iter().all(|s| s.dropped)).unwrap_or(false);
                 // An event whose reference cannot be resolved on this client is withheld by design:
                 // require the target to be replicated to the client from the flush tick onwards.
